@@ -258,8 +258,141 @@ func (c *Ctx) Known(id string, witness interface{}) {
 // Finish writes the evidence file, prints KNOWN-FINDING lines and returns the
 // exit code: 0 held, 1 violated, 2 inconclusive (insufficient observation).
 func (c *Ctx) Finish() int {
+	if p := os.Getenv("VERIF_PARTIAL"); p != "" {
+		return c.finishPartial(p)
+	}
 	c.mu.Lock()
 	defer c.mu.Unlock()
+	return c.finishLocked()
+}
+
+// Partial is what one shard of a sharded run hands to the parent.
+type Partial struct {
+	Seed       int64                     `json:"seed"`
+	Evals      int                       `json:"evals"`
+	Distinct   []string                  `json:"distinct"`
+	Samples    []interface{}             `json:"samples"`
+	Extra      map[string]interface{}    `json:"extra"`
+	Counters   map[string]int            `json:"counters"`
+	Buckets    map[string]map[string]int `json:"buckets"`
+	Violations []Violation               `json:"violations"`
+	Known      map[string]PartialKnown   `json:"known"`
+	Inconcl    []string                  `json:"inconclusive"`
+	Assume     []string                  `json:"assume"`
+	MinNontriv int                       `json:"min_nontriv"`
+	Exhaustive bool                      `json:"exhaustive"`
+	Rule       string                    `json:"rule"`
+	WallS      float64                   `json:"wall_s"`
+}
+
+// PartialKnown is one known-finding tally of a shard.
+type PartialKnown struct {
+	N     int    `json:"n"`
+	First string `json:"first"`
+}
+
+func (c *Ctx) finishPartial(path string) int {
+	c.mu.Lock()
+	defer c.mu.Unlock()
+	p := Partial{Seed: c.Seed, Evals: c.evals, Samples: c.samples, Extra: c.extra, Counters: c.counters, Buckets: c.buckets, Violations: c.violations,
+		Known: map[string]PartialKnown{}, Inconcl: c.inconcl, Assume: c.assume, MinNontriv: c.MinNontriv, Exhaustive: c.Exhaustive, Rule: c.Rule, WallS: time.Since(c.start).Seconds()}
+	for h := range c.distinct {
+		p.Distinct = append(p.Distinct, hex.EncodeToString([]byte(h)))
+	}
+	for id, k := range c.known {
+		p.Known[id] = PartialKnown{N: k.n, First: k.first}
+	}
+	b, _ := json.Marshal(p)
+	if err := os.WriteFile(path, b, 0o644); err != nil {
+		fmt.Fprintln(os.Stderr, "partial write failed:", err)
+		return 2
+	}
+	if len(c.violations) > 0 {
+		return 1
+	}
+	return 0
+}
+
+// Merge folds the partial results of the shards into c (the parent's context) so that Finish reports the whole run.
+func (c *Ctx) Merge(parts []Partial) {
+	c.mu.Lock()
+	defer c.mu.Unlock()
+	c.MinNontriv = 0
+	var seeds []int64
+	for _, p := range parts {
+		seeds = append(seeds, p.Seed)
+		c.evals += p.Evals
+		for _, h := range p.Distinct {
+			if b, err := hex.DecodeString(h); err == nil {
+				c.distinct[string(b)] = struct{}{}
+			}
+		}
+		for _, s := range p.Samples {
+			if len(c.samples) < c.MaxSamples+2 {
+				c.samples = append(c.samples, s)
+			}
+		}
+		for k, v := range p.Extra {
+			if f, isNum := v.(float64); isNum {
+				if prev, had := c.extra[k].(float64); had {
+					c.extra[k] = prev + f
+				} else {
+					c.extra[k] = f
+				}
+			} else if _, had := c.extra[k]; !had {
+				c.extra[k] = v
+			}
+		}
+		for k, v := range p.Counters {
+			c.counters[k] += v
+		}
+		for g, m := range p.Buckets {
+			if c.buckets[g] == nil {
+				c.buckets[g] = map[string]int{}
+			}
+			for k, v := range m {
+				c.buckets[g][k] += v
+			}
+		}
+		c.violations = append(c.violations, p.Violations...)
+		for id, k := range p.Known {
+			f, ok := c.findings[id]
+			if !ok {
+				continue
+			}
+			if c.known[id] == nil {
+				c.known[id] = &knownHit{f: f, first: k.First}
+			}
+			c.known[id].n += k.N
+		}
+		for _, s := range p.Inconcl {
+			if len(c.inconcl) < 50 {
+				c.inconcl = append(c.inconcl, s)
+			}
+		}
+		for _, a := range p.Assume {
+			dup := false
+			for _, x := range c.assume {
+				if x == a {
+					dup = true
+				}
+			}
+			if !dup {
+				c.assume = append(c.assume, a)
+			}
+		}
+		c.MinNontriv += p.MinNontriv
+		c.Exhaustive = c.Exhaustive || p.Exhaustive
+		if c.Rule == "" {
+			c.Rule = p.Rule
+		}
+	}
+	c.extra["shards"] = len(parts)
+	c.extra["shard_seeds"] = seeds
+	c.extra["sharding"] = "the thorough tier runs the check's case list once per shard seed in parallel processes; counts are summed over shards (numeric extras too), distinct cases are the union of the shards' case hashes"
+}
+
+func (c *Ctx) finishLocked() int {
 	cov := map[string]interface{}{}
 	for k, v := range c.extra {
 		cov[k] = v
